@@ -209,3 +209,20 @@ func (r *Root) Compare(arg string, github bool) CmdResult {
 		return "", cmd.VerifPerformCompare(false, r.procCtx())
 	})
 }
+
+// CompareAll is `regex compare --all`.
+func (r *Root) CompareAll(github bool) CmdResult {
+	return runCmd(func() (string, error) {
+		cmd.VerifSetRoot(r.Dir, github)
+		return "", cmd.VerifPerformCompare(true, r.procCtx())
+	})
+}
+
+// UpdateAll is `regex update --all`.
+func (r *Root) UpdateAll() CmdResult {
+	return runCmd(func() (string, error) {
+		cmd.VerifSetRoot(r.Dir, false)
+		cmd.VerifPerformUpdate(true, r.procCtx())
+		return "", nil
+	})
+}
